@@ -190,8 +190,30 @@ public:
   static uintptr_t base_of_index(int idx) { return (uintptr_t)MBOX_BASE0 + (uintptr_t)idx * kSpacing + (Cfg::mode == REGISTRY ? 0x3000 : 0); }
   uint8_t* mem() const { return reinterpret_cast<uint8_t*>(base); }
 
+#ifdef MBOX_INTERNAL_LOOKUP
+  // A backend whose function ADDRESSES (what tainted function pointers hold, what get_sandbox_function_address yields)
+  // are an internal representation distinct from the pointer used to INVOKE the function: RLBox asks for the former
+  // through impl_internal_lookup_symbol. Modelled as the invocation pointer with a tag bit; invoking a tagged pointer
+  // is refused, so a mix-up of the two lookups is observable either way.
+  using needs_internal_lookup_symbol = void;
+  static constexpr uintptr_t kInternalTag = (uintptr_t)1 << 62;
+  static void* tag_internal(const void* p) { return reinterpret_cast<void*>(reinterpret_cast<uintptr_t>(p) | kInternalTag); }
+  static const void* untag_internal(const void* p) { return reinterpret_cast<const void*>(reinterpret_cast<uintptr_t>(p) & ~kInternalTag); }
+  void* impl_internal_lookup_symbol(const char* func_name) { return tag_internal(impl_lookup_symbol(func_name)); }
+#endif
+  static const void* untag_or_same(const void* p)
+  {
+#ifdef MBOX_INTERNAL_LOOKUP
+    return untag_internal(p);
+#else
+    return p;
+#endif
+  }
   uint64_t fn_to_rep(const void* p) const
   {
+#ifdef MBOX_INTERNAL_LOOKUP
+    p = untag_internal(p);
+#endif
     auto& t = const_cast<mbox*>(this)->ftab;
     for (size_t i = 1; i < t.size(); i++)
       if (t[i] == p) return i;
@@ -370,6 +392,9 @@ protected:
     d.sandbox = this;
     n_invoke++;
     auto on_exit = rlbox::detail::make_scope_exit([&] { td().sandbox = old_sandbox; });
+#ifdef MBOX_INTERNAL_LOOKUP
+    rlbox::detail::dynamic_check((reinterpret_cast<uintptr_t>(func_ptr) & kInternalTag) == 0, "mbox: asked to invoke the internal representation of a function address");
+#endif
     return (*func_ptr)(params...);
   }
 
